@@ -41,8 +41,70 @@ type Std struct {
 	// Fold lets the client evaluate a leaf itself (before atoms).
 	Fold func(e ast.Expr, s S) (val, ok bool)
 
+	// ShouldInline opts into interprocedural evaluation: a call of a function of
+	// the analysed module for which it returns true is evaluated by running the
+	// callee's CFG under the current state (parameters bound to the arguments),
+	// so that guards, predicates and effects moved into helpers are still seen.
+	// Recursive calls and calls nested deeper than MaxInline (default 3) are not
+	// inlined.  Results are available through CallResult while the statement that
+	// contains the call is processed.
+	ShouldInline func(cf *Func, call *ast.CallExpr) bool
+	MaxInline    int
+	// Inlined collects the callees that were evaluated (for evidence).
+	Inlined map[*Func]bool
+
+	frames      []*inlFrame
 	untrackable map[types.Object]bool
+	scanned     map[*Func]bool
 	prepared    bool
+}
+
+type inlFrame struct {
+	fn   *Func
+	call *ast.CallExpr
+	bind map[types.Object]ast.Expr
+}
+
+// Resolve maps an identifier that denotes a parameter of a function currently
+// being evaluated inline to the argument expression it is bound to (through all
+// frames).  Rules compare roles on the resolved expression.
+func (st *Std) Resolve(e ast.Expr) ast.Expr {
+	for i := 0; i < 8; i++ {
+		id, ok := ast.Unparen(e).(*ast.Ident)
+		if !ok {
+			return e
+		}
+		o := ObjOf(st.F.Info(), id)
+		found := false
+		for j := len(st.frames) - 1; j >= 0; j-- {
+			if a, ok := st.frames[j].bind[o]; ok {
+				e, found = a, true
+				break
+			}
+		}
+		if !found {
+			return e
+		}
+	}
+	return e
+}
+
+// ObjOf is kit.ObjOf after Resolve.
+func (st *Std) ObjOf(e ast.Expr) types.Object { return ObjOf(st.F.Info(), st.Resolve(e)) }
+
+// Cur returns the function whose body is being evaluated (the root function or
+// the innermost inlined callee).
+func (st *Std) Cur() *Func {
+	if n := len(st.frames); n > 0 {
+		return st.frames[n-1].fn
+	}
+	return st.F
+}
+
+// CallResult returns the classification of result i of an inlined call in
+// state s: "nil"/"nonnil" for errors, "true"/"false" for booleans, "" unknown.
+func (st *Std) CallResult(call *ast.CallExpr, i int, s S) string {
+	return s.Get(fmt.Sprintf("rc:%d:%d", call.Pos(), i))
 }
 
 // VarID returns the stable state key suffix of a variable.
@@ -59,10 +121,44 @@ func (st *Std) prepare() {
 	}
 	st.prepared = true
 	st.untrackable = map[types.Object]bool{}
+	st.scanned = map[*Func]bool{}
 	info := st.F.Info()
 	st.Eval.Info = info
-	// variables whose address is taken, or that are assigned inside nested
-	// function literals, are never tracked.
+	st.scanFunc(st.F)
+	user := st.Fold
+	st.Eval.Fold = func(e ast.Expr, s S) (bool, bool) {
+		if user != nil {
+			if v, ok := user(e, s); ok {
+				return v, true
+			}
+		}
+		// error nil-ness
+		if x, trueIsErr, ok := ErrCheck(info, e); ok {
+			if o := ObjOf(info, x); o != nil {
+				switch s.Get("nn:" + VarID(o)) {
+				case "T":
+					return trueIsErr, true
+				case "F":
+					return !trueIsErr, true
+				}
+			}
+		}
+		v, ok := st.FoldExpr(e, s)
+		if ok && v.Kind() == constant.Bool {
+			return constant.BoolVal(v), true
+		}
+		return false, false
+	}
+}
+
+// scanFunc records the variables of f that are never tracked: address taken, or
+// assigned inside nested function literals.
+func (st *Std) scanFunc(f *Func) {
+	if st.scanned[f] || f.Body == nil {
+		return
+	}
+	st.scanned[f] = true
+	info := f.Info()
 	var walk func(n ast.Node, inLit bool)
 	walk = func(n ast.Node, inLit bool) {
 		ast.Inspect(n, func(x ast.Node) bool {
@@ -96,31 +192,7 @@ func (st *Std) prepare() {
 			return true
 		})
 	}
-	walk(st.F.Body, false)
-	user := st.Fold
-	st.Eval.Fold = func(e ast.Expr, s S) (bool, bool) {
-		if user != nil {
-			if v, ok := user(e, s); ok {
-				return v, true
-			}
-		}
-		// error nil-ness
-		if x, trueIsErr, ok := ErrCheck(info, e); ok {
-			if o := ObjOf(info, x); o != nil {
-				switch s.Get("nn:" + VarID(o)) {
-				case "T":
-					return trueIsErr, true
-				case "F":
-					return !trueIsErr, true
-				}
-			}
-		}
-		v, ok := st.FoldExpr(e, s)
-		if ok && v.Kind() == constant.Bool {
-			return constant.BoolVal(v), true
-		}
-		return false, false
-	}
+	walk(f.Body, false)
 }
 
 func (st *Std) trackable(o types.Object) bool {
@@ -315,7 +387,7 @@ func zeroRepr(t types.Type) (string, bool) {
 
 // assign updates tracking for `lhs = rhs` (rhs may be nil for a multi-value
 // call result or an unknown value).
-func (st *Std) assign(s S, lhs ast.Expr, rhs ast.Expr, fromCall *ast.CallExpr, isErrPos bool) S {
+func (st *Std) assign(s S, lhs ast.Expr, rhs ast.Expr, fromCall *ast.CallExpr, isErrPos bool, idx int) S {
 	info := st.F.Info()
 	o := ObjOf(info, lhs)
 	if o == nil {
@@ -344,6 +416,14 @@ func (st *Std) assign(s S, lhs ast.Expr, rhs ast.Expr, fromCall *ast.CallExpr, i
 		}
 	}
 	if fromCall != nil {
+		switch st.CallResult(fromCall, idx, s) {
+		case "nil":
+			return s.Set("nn:"+id, "F")
+		case "nonnil":
+			return s.Set("nn:"+id, "T")
+		case "true", "false":
+			return s.Set("v:"+id, st.CallResult(fromCall, idx, s))
+		}
 		if isErrPos && types.Identical(o.Type(), types.Universe.Lookup("error").Type()) {
 			if q := QualName(Callee(info, fromCall)); q == "fmt.Errorf" || q == "errors.New" {
 				return s.Set("nn:"+id, "T")
@@ -362,22 +442,9 @@ func (st *Std) assign(s S, lhs ast.Expr, rhs ast.Expr, fromCall *ast.CallExpr, i
 func (st *Std) Client() Client {
 	st.prepare()
 	info := st.F.Info()
+	var cl Client
 	node := func(n ast.Node, s S) []S {
-		states := []S{s}
-		if st.OnCall != nil {
-			for _, call := range CallsIn(n) {
-				var next []S
-				for _, x := range states {
-					r := st.OnCall(call, n, x)
-					if r == nil {
-						next = append(next, x)
-					} else {
-						next = append(next, r...)
-					}
-				}
-				states = next
-			}
-		}
+		states := st.execCalls(n, []S{s}, &cl)
 		var out []S
 		for _, x := range states {
 			switch y := n.(type) {
@@ -385,16 +452,16 @@ func (st *Std) Client() Client {
 				if len(y.Rhs) == 1 && len(y.Lhs) > 1 {
 					call, _ := ast.Unparen(y.Rhs[0]).(*ast.CallExpr)
 					for i, l := range y.Lhs {
-						x = st.assign(x, l, nil, call, i == len(y.Lhs)-1)
+						x = st.assign(x, l, nil, call, i == len(y.Lhs)-1, i)
 					}
 				} else if len(y.Lhs) == len(y.Rhs) {
 					if y.Tok == token.ASSIGN || y.Tok == token.DEFINE {
 						for i, l := range y.Lhs {
-							x = st.assign(x, l, y.Rhs[i], nil, false)
+							x = st.assign(x, l, y.Rhs[i], nil, false, 0)
 						}
 					} else {
 						for _, l := range y.Lhs {
-							x = st.assign(x, l, nil, nil, false)
+							x = st.assign(x, l, nil, nil, false, 0)
 						}
 					}
 				}
@@ -417,7 +484,7 @@ func (st *Std) Client() Client {
 						break
 					}
 				}
-				x = st.assign(x, y.X, nil, nil, false)
+				x = st.assign(x, y.X, nil, nil, false, 0)
 			case *ast.ValueSpec:
 				for i, nm := range y.Names {
 					o := info.Defs[nm]
@@ -425,7 +492,7 @@ func (st *Std) Client() Client {
 						continue
 					}
 					if i < len(y.Values) && len(y.Values) == len(y.Names) {
-						x = st.assign(x, nm, y.Values[i], nil, false)
+						x = st.assign(x, nm, y.Values[i], nil, false, 0)
 					} else if len(y.Values) == 0 && st.trackable(o) {
 						if z, ok := zeroRepr(o.Type()); ok {
 							x = x.Set("v:"+VarID(o), z)
@@ -433,12 +500,12 @@ func (st *Std) Client() Client {
 							x = x.Set("nn:"+VarID(o), "F")
 						}
 					} else {
-						x = st.assign(x, nm, nil, nil, false)
+						x = st.assign(x, nm, nil, nil, false, 0)
 					}
 				}
 			case *ast.Ident:
 				// range key/value definitions: forget
-				x = st.assign(x, y, nil, nil, false)
+				x = st.assign(x, y, nil, nil, false, 0)
 			}
 			if st.OnNode != nil {
 				out = append(out, st.OnNode(n, x)...)
@@ -446,36 +513,43 @@ func (st *Std) Client() Client {
 				out = append(out, x)
 			}
 		}
+		if _, isRet := n.(*ast.ReturnStmt); !isRet && st.ShouldInline != nil {
+			for i := range out {
+				out[i] = out[i].DelPrefix("rc:")
+			}
+		}
 		return out
 	}
 	var cond0 func(c ast.Expr, s S) (t, f []S)
 	cond := func(c ast.Expr, s S) (t, f []S) {
-		// calls evaluated as part of the condition are seen by OnCall first
-		states := []S{s}
-		if st.OnCall != nil {
-			for _, call := range CallsIn(c) {
-				var next []S
-				for _, x := range states {
-					r := st.OnCall(call, c, x)
-					if r == nil {
-						next = append(next, x)
-					} else {
-						next = append(next, r...)
-					}
-				}
-				states = next
-			}
-		}
+		// calls evaluated as part of the condition are seen by OnCall (and inlined) first
+		states := st.execCalls(c, []S{s}, &cl)
 		for _, x := range states {
 			a, b := cond0(c, x)
 			t = append(t, a...)
 			f = append(f, b...)
+		}
+		if st.ShouldInline != nil {
+			for i := range t {
+				t[i] = t[i].DelPrefix("rc:")
+			}
+			for i := range f {
+				f[i] = f[i].DelPrefix("rc:")
+			}
 		}
 		return t, f
 	}
 	// error checks are leaves of the condition: `err != nil`, `!(err != nil)`,
 	// `err != nil || len(x) == 0` all refine the error variable's state.
 	st.Eval.Leaf = func(c ast.Expr, s S) (t, f []S, handled bool) {
+		if call, isCall := ast.Unparen(c).(*ast.CallExpr); isCall {
+			switch st.CallResult(call, 0, s) {
+			case "true":
+				return []S{s}, nil, true
+			case "false":
+				return nil, []S{s}, true
+			}
+		}
 		x, trueIsErr, ok := ErrCheck(info, c)
 		if !ok {
 			return nil, nil, false
@@ -588,7 +662,8 @@ func (st *Std) Client() Client {
 		}
 		return []S{s}, []S{s}
 	}
-	return Client{Node: node, Cond: cond, Other: other}
+	cl = Client{Node: node, Cond: cond, Other: other}
+	return cl
 }
 
 // ReturnsNil classifies the error result of a return statement under s:
@@ -608,6 +683,11 @@ func (st *Std) ReturnsNil(r *ast.ReturnStmt, s S) string {
 		case "fmt.Errorf", "errors.New":
 			return "nonnil"
 		}
+		for i := 0; i < 4; i++ {
+			if v := st.CallResult(c, i, s); v == "nil" || v == "nonnil" {
+				return v
+			}
+		}
 		return "unknown"
 	}
 	if o := ObjOf(info, e); o != nil {
@@ -619,4 +699,165 @@ func (st *Std) ReturnsNil(r *ast.ReturnStmt, s S) string {
 		}
 	}
 	return "unknown"
+}
+
+// execCalls runs the OnCall hook and, where the client opted in, the inline
+// evaluation of every call of node n in evaluation order.
+func (st *Std) execCalls(n ast.Node, states []S, cl *Client) []S {
+	if st.OnCall == nil && st.ShouldInline == nil {
+		return states
+	}
+	for _, call := range CallsIn(n) {
+		var next []S
+		seen := map[string]bool{}
+		for _, x := range states {
+			xs := []S{x}
+			if st.OnCall != nil {
+				if r := st.OnCall(call, n, x); r != nil {
+					xs = r
+				}
+			}
+			for _, y := range xs {
+				for _, z := range st.inline(call, n, y, cl) {
+					if k := z.Key(); !seen[k] {
+						seen[k] = true
+						next = append(next, z)
+					}
+				}
+			}
+		}
+		states = next
+	}
+	return states
+}
+
+func (st *Std) inline(call *ast.CallExpr, n ast.Node, s S, cl *Client) []S {
+	if st.ShouldInline == nil {
+		return []S{s}
+	}
+	if _, isGo := n.(*ast.GoStmt); isGo {
+		return []S{s}
+	}
+	max := st.MaxInline
+	if max == 0 {
+		max = 3
+	}
+	if len(st.frames) >= max {
+		return []S{s}
+	}
+	cur := st.Cur()
+	cf := cur.CalleeFunc(call)
+	if cf == nil || cf.Body == nil || cf.Pkg != st.F.Pkg || cf == st.F {
+		return []S{s}
+	}
+	for _, fr := range st.frames {
+		if fr.fn == cf {
+			return []S{s}
+		}
+	}
+	if !st.ShouldInline(cf, call) {
+		return []S{s}
+	}
+	info := st.F.Info()
+	bind := map[types.Object]ast.Expr{}
+	init := s
+	params := cf.Params()
+	if len(params) != len(call.Args) {
+		// variadic or mismatching: bind what lines up positionally, nothing else
+		if cf.Type.Params != nil && len(call.Args) < len(params) {
+			return []S{s}
+		}
+	}
+	for i, p := range params {
+		if i >= len(call.Args) {
+			break
+		}
+		if i == len(params)-1 && len(call.Args) > len(params) {
+			break // variadic tail
+		}
+		a := call.Args[i]
+		bind[p] = st.Resolve(a)
+		if v, ok := st.FoldExpr(a, s); ok && (v.Kind() == constant.Bool || v.Kind() == constant.String || v.Kind() == constant.Int) {
+			init = init.Set("v:"+VarID(p), constRepr(v))
+		}
+		if o := ObjOf(info, st.Resolve(a)); o != nil {
+			if k := s.Get("nn:" + VarID(o)); k != "" {
+				init = init.Set("nn:"+VarID(p), k)
+			}
+		}
+	}
+	if cf.Decl != nil && cf.Decl.Recv != nil && len(cf.Decl.Recv.List) > 0 && len(cf.Decl.Recv.List[0].Names) > 0 {
+		if sel, ok := ast.Unparen(call.Fun).(*ast.SelectorExpr); ok {
+			if ro := info.Defs[cf.Decl.Recv.List[0].Names[0]]; ro != nil {
+				bind[ro] = st.Resolve(sel.X)
+			}
+		}
+	}
+	st.scanFunc(cf)
+	if st.Inlined == nil {
+		st.Inlined = map[*Func]bool{}
+	}
+	st.Inlined[cf] = true
+	st.frames = append(st.frames, &inlFrame{fn: cf, call: call, bind: bind})
+	res := st.F.Prog.Graph(cf).Run(init, *cl)
+	var out []S
+	lo, hi := cf.Node().Pos(), cf.Node().End()
+	errT := types.Universe.Lookup("error").Type()
+	for _, e := range res.Exits {
+		if e.Return == nil {
+			continue
+		}
+		s2 := e.State
+		var rc []string
+		for i, r := range e.Return.Results {
+			t := info.TypeOf(r)
+			if t == nil {
+				continue
+			}
+			switch {
+			case types.Identical(t, errT) || IsNilIdent(info, r):
+				// classify like ReturnsNil on this one result
+				rs := &ast.ReturnStmt{Results: []ast.Expr{r}}
+				if v := st.ReturnsNil(rs, s2); v != "unknown" {
+					rc = append(rc, fmt.Sprintf("rc:%d:%d=%s", call.Pos(), i, v))
+				}
+			default:
+				if b, ok := t.Underlying().(*types.Basic); ok && b.Info()&types.IsBoolean != 0 {
+					if v, ok := st.FoldExpr(r, s2); ok && v.Kind() == constant.Bool {
+						rc = append(rc, fmt.Sprintf("rc:%d:%d=%v", call.Pos(), i, constant.BoolVal(v)))
+					}
+				}
+			}
+		}
+		// forget the callee's locals
+		for _, k := range s2.Keys() {
+			if at := strings.LastIndex(k, "@"); at >= 0 && (strings.HasPrefix(k, "v:") || strings.HasPrefix(k, "nn:") || strings.HasPrefix(k, "ev:") || strings.HasPrefix(k, "q:") || strings.HasPrefix(k, "bv:")) {
+				var pos int
+				fmt.Sscanf(k[at+1:], "%d", &pos)
+				if token.Pos(pos) >= lo && token.Pos(pos) <= hi {
+					s2 = s2.Del(k)
+				}
+			}
+		}
+		// results of calls made inside the callee are not the caller's business
+		for _, k := range s2.Keys() {
+			if strings.HasPrefix(k, "rc:") {
+				var pos int
+				fmt.Sscanf(k[3:], "%d", &pos)
+				if token.Pos(pos) >= lo && token.Pos(pos) <= hi {
+					s2 = s2.Del(k)
+				}
+			}
+		}
+		for _, kv := range rc {
+			i := strings.Index(kv, "=")
+			s2 = s2.Set(kv[:i], kv[i+1:])
+		}
+		out = append(out, s2)
+	}
+	st.frames = st.frames[:len(st.frames)-1]
+	if res.Overflow {
+		return []S{s}
+	}
+	return out
 }
